@@ -959,6 +959,17 @@ theorem liftTarget_lift_applies (S : Schema) (hts : C01.TextStable S) (doc : Nod
     exact ⟨doc', hap, C01.apply_valid S (.replaceAround f' t' gs ge sl i true) _ doc' hv hpay hap,
       lift_keeps_content S _ doc' a b depth target _ hab hb hap⟩
 
+/-- when nothing is split, `liftGuard` follows from the approval (`liftTarget_lift_applies_flat` is this special
+    case of `liftTarget_lift_applies`) -/
+theorem liftGuard_of_flat (S : Schema) (doc : Node) (a b depth target : Nat) (f t : RPos)
+    (hv : C01.Valid S doc) (hf : doc.resolve a = some f) (ht : doc.resolve b = some t)
+    (hab : a ≤ b) (hend : b ≤ f.end_ depth)
+    (hg : liftFlatGuard doc a b depth target = true)
+    (hc : liftTarget S doc a b depth = some (some target)) : liftGuard S doc a b depth target = true := by
+  have hg' : liftFlatGuardR f t depth target = true := by simpa [liftFlatGuard, hf, ht] using hg
+  have hc' : liftTargetR S f t depth = some (some target) := by simpa [liftTarget, hf, ht] using hc
+  simpa [liftGuard, hf, ht] using liftGuardR_of_flat S depth target hf ht hv hab hend hg' hc'
+
 /-- a non-trivial instance: lifting the second paragraph of `exDoc = doc(blockquote(p("a"), p("b")))` to the top
     splits the blockquote in front of it -/
 example : liftFlatGuard exDoc 5 6 1 0 = false ∧ liftGuard exSchema exDoc 5 6 1 0 = true := ⟨rfl, rfl⟩
